@@ -11,6 +11,7 @@ and reduced in a pristine forked interpreter (harness/c02_worker.py); when it on
 operations, the replay is the reduced *sequence* of operations, so it fails in a new process too.
 """
 import collections
+import collections.abc
 import itertools
 import json
 import math
@@ -54,33 +55,168 @@ def canon(v):
     return v
 
 
+class _CMapping(collections.abc.Mapping):
+    """A read-only mapping written against collections.abc.Mapping (not a dict, not mutable)."""
+
+    def __init__(self, d):
+        self._d = dict(d)
+
+    def __getitem__(self, k):
+        return self._d[k]
+
+    def __iter__(self):
+        return iter(self._d)
+
+    def __len__(self):
+        return len(self._d)
+
+
+class _CMutable(collections.abc.MutableMapping):
+    """A mutable mapping written against collections.abc.MutableMapping (not a dict)."""
+
+    def __init__(self, d):
+        self._d = dict(d)
+
+    def __getitem__(self, k):
+        return self._d[k]
+
+    def __setitem__(self, k, v):
+        self._d[k] = v
+
+    def __delitem__(self, k):
+        del self._d[k]
+
+    def __iter__(self):
+        return iter(self._d)
+
+    def __len__(self):
+        return len(self._d)
+
+
+class _RevDict(dict):
+    """A subclass of dict that overrides how it is walked: __iter__ / keys / items / values present the keys in the
+    reverse of the storage order (all four consistently)."""
+
+    def __iter__(self):
+        return iter(list(dict.keys(self))[::-1])
+
+    def keys(self):
+        return list(self)
+
+    def items(self):
+        return [(k, dict.__getitem__(self, k)) for k in self]
+
+    def values(self):
+        return [dict.__getitem__(self, k) for k in self]
+
+
+class _GetDict(dict):
+    """A subclass of dict that overrides how it is looked up: __getitem__ / get count the lookups and return what the
+    dictionary holds."""
+
+    looked = 0
+
+    def __getitem__(self, k):
+        self.looked += 1
+        return dict.__getitem__(self, k)
+
+    def get(self, k, default=None):
+        self.looked += 1
+        return dict.get(self, k, default)
+
+
+# the kinds of object a caller may hold a record in.  Every one PRESENTS exactly the items of `d`, in the order of `d`.
+MAPPINGS = ("dict", "ordered", "default", "counter", "userdict", "chainmap", "proxy", "cmapping", "cmutable", "revdict", "getdict")
+MAPPING_IS_DICT = {"dict", "ordered", "default", "counter", "revdict", "getdict"}
+MAPPING_IS_MUTABLE = MAPPING_IS_DICT | {"userdict", "chainmap", "cmutable"}
+
+
 def mapping(d, how):
-    """The dictionary as the caller holds it: a plain dict or one of the standard dict subclasses."""
+    """The record as the caller holds it: a plain dict, one of the standard dict subclasses, a dict subclass that overrides
+    its iteration or its lookup, or a mapping that is not a dict at all (UserDict, ChainMap, MappingProxyType, classes
+    written against collections.abc)."""
     if how == "ordered":
         return collections.OrderedDict(d)
     if how == "default":
         return collections.defaultdict(list, d)
+    if how == "counter":
+        c = collections.Counter()
+        dict.update(c, d)
+        return c
+    if how == "userdict":
+        return collections.UserDict(d)
+    if how == "chainmap":
+        # iteration order of a ChainMap: the keys of the LAST map, then those of the maps before it that are new.
+        # back map: the first half of the items (the first of them shadowed by the front map), front map: the rest
+        items = list(d.items())
+        j = len(items) // 2
+        back = dict(items[:j])
+        front = {}
+        if j:
+            back[items[0][0]] = "__shadowed__"
+            front[items[0][0]] = items[0][1]
+        front.update(items[j:])
+        return collections.ChainMap(front, back)
+    if how == "proxy":
+        import types
+
+        return types.MappingProxyType(dict(d))
+    if how == "cmapping":
+        return _CMapping(d)
+    if how == "cmutable":
+        return _CMutable(d)
+    if how == "revdict":
+        return _RevDict(list(d.items())[::-1])
+    if how == "getdict":
+        return _GetDict(d)
     return dict(d)
 
 
-def caller_dicts(dicts, shared=False):
+def caller_dicts(dicts, shared=False, how=None):
     """The caller's dictionaries: fresh objects, or (shared) ONE object wherever a dictionary repeats the one
-    before it — the same record handed in twice."""
+    before it — the same record handed in twice.  `how`: the kind of mapping object every record is held in."""
     out = []
     for i, d in enumerate(dicts):
         if shared and i and list(d.items()) == list(dicts[i - 1].items()) and wire.same(d, dicts[i - 1]):
             out.append(out[-1])
         else:
-            out.append(dict(d))
+            out.append(mapping(d, how))
     return out
 
 
-SOURCES = ("list", "iter", "tuple", "gen", "values", "deque", "getitem", "fresh", "counting", "reader", "drain")
+SOURCES = ("list", "iter", "tuple", "gen", "values", "deque", "getitem", "fresh", "counting", "reader", "drain", "refill", "edit")
 # what iterating the object twice does: a container starts again, a one-shot iterator IS its own iterator, a record
 # reader hands out a new iterator over ONE shared cursor
 SOURCE_CLASS = {"list": "container", "tuple": "container", "values": "container", "deque": "container", "getitem": "container",
                 "fresh": "container", "counting": "container", "iter": "oneshot", "gen": "oneshot", "reader": "reader",
-                "drain": "reader"}
+                "drain": "reader", "refill": "oneshot", "edit": "oneshot"}
+# the producer goes on using a record object after it has handed it over (the row must hold what the record held WHEN it
+# was handed over): `refill` = a streaming reader with one record buffer, emptied and refilled for every record;
+# `edit` = each record is emptied and overwritten as soon as the consumer asks for the next one
+SOURCE_REUSES_RECORDS = ("refill", "edit")
+
+
+def _refill(ds):
+    buf = {}
+    for d in ds:
+        buf.clear()
+        buf.update(d)
+        yield buf
+
+
+def _edit_after(ds):
+    snap = [list(d.items()) for d in ds]
+    spoiled = set()
+    for d, items in zip(ds, snap):
+        if id(d) in spoiled:
+            d = dict(items)  # the same object twice in the sequence: the second time a new record with the same items
+        yield d
+        try:
+            d.clear()
+            d[SENT] = SENT
+            spoiled.add(id(d))
+        except Exception:
+            pass
 
 
 class _Reader:
@@ -165,6 +301,10 @@ def make_source(dicts, kind):
         return _Reader(dicts)
     if kind == "drain":
         return _Drain(dicts)
+    if kind == "refill":
+        return _refill(dicts)
+    if kind == "edit":
+        return _edit_after(dicts)
     return dicts
 
 
@@ -503,7 +643,7 @@ def judge_frame_views(names, exp_rows, views):
 def impl_frame(case):
     from orso import DataFrame
 
-    dicts = caller_dicts(case["dicts"], case.get("shared"))
+    dicts = caller_dicts(case["dicts"], case.get("shared"), case.get("dmapping"))
     src = make_source(dicts, source_kind(case))
     try:
         df = DataFrame(src)
@@ -600,6 +740,12 @@ def impl_append(case):
                     schema = list(fields)
                 # lazy: the frame is backed by a generator of rows until something needs the list
                 df = DataFrame(rows=(r for r in list(rows)) if case.get("lazy") else list(rows), schema=schema)
+            how = case.get("derived")
+            if how:
+                # the frame appended to is derived from that one, all rows and all columns kept
+                df = (df.head(len(rows)) if how == "head" else df.slice(0, None) if how == "slice"
+                      else df.select(list(fields)) if how == "select" else df.query(lambda r: True))
+                df.materialize()
         except Exception as e:
             return {"setup_raised": type(e).__name__}
         try:
@@ -624,7 +770,9 @@ def oracle_append(case, out):
     want = prev + [[d.get(f, None) for f in fields]]
     bound = case["schema_bound"] or case.get("via") == "arrow"
     if "raised" in out:
-        if bound and out["raised"] in VALIDATION_ERRORS:
+        if bound and (out["raised"] in VALIDATION_ERRORS
+                      or (out["raised"] == "TypeError" and (case.get("mapping") or "dict") not in MAPPING_IS_MUTABLE)):
+            # (a schema's validation takes mutable mappings only: a read-only mapping is refused with TypeError)
             # the schema's validation refused the record (whether rightly is C03's business, whether the frame is
             # left untouched C05's): here only that no row other than the record's own was stored
             if not (wire.same(out["rows"], prev) or wire.same(out["rows"], want)):
@@ -703,7 +851,7 @@ def impl_session(case):
                     if not op["dicts"]:
                         o = {"skip": True}
                     else:
-                        dicts = caller_dicts(op["dicts"], op.get("shared"))
+                        dicts = caller_dicts(op["dicts"], op.get("shared"), op.get("dmapping"))
                         df = DataFrame(make_source(dicts, source_kind(op)))
                         spoil_input(*dicts)
                         frames.append(df)
@@ -1585,6 +1733,8 @@ def compare_model(case, out, mo):
             ok = "raised" not in out and m[0] == out["names"] and wire.same(m[1], out["rows"])
     elif k == "append":
         ok = ("setup_raised" in out or out.get("raised") in VALIDATION_ERRORS  # the schema's validation is not in this model (C03)
+              or (out.get("raised") == "TypeError" and (case.get("mapping") or "dict") not in MAPPING_IS_MUTABLE
+                  and (case["schema_bound"] or case.get("via") == "arrow"))
               or ("raised" not in out and wire.same(m[0], out["rows"])))
     elif k == "bound":
         ok = bound_matches(case, out, m[0])
@@ -1683,8 +1833,14 @@ def valid_reads(c):
             and all(isinstance(r[k], list) and all(n in VIEWS for n in r[k]) for k in r))
 
 
+def valid_mapping(c):
+    return (c.get("mapping") or "dict") in MAPPINGS and (c.get("dmapping") or "dict") in MAPPINGS
+
+
 def valid_op(op):
     k = op["op"]
+    if not valid_mapping(op):
+        return False
     if k == "ctx":
         return op["what"] in CTX_KINDS and all(isinstance(f, str) for f in op["fields"])
     if k == "frame":
@@ -1752,7 +1908,7 @@ def valid_case(c):
                     and all(isinstance(p, str) for p in c["probes"]))
         if k == "frame":
             return (all(text_dict(d) for d in c["dicts"]) and (c.get("append") is None or text_dict(c["append"]))
-                    and c.get("source", "list") in SOURCES)
+                    and c.get("source", "list") in SOURCES and valid_mapping(c))
         if k == "append":
             w = len(c["fields"])
             bound = c["schema_bound"] or c.get("via") == "arrow"
@@ -1761,7 +1917,8 @@ def valid_case(c):
             if c.get("via") == "arrow" and not all(type(x) is int and abs(x) < 2**62 for r in c["rows"] for x in r):
                 return False
             return (all(isinstance(f, str) for f in c["fields"]) and all(len(r) == w for r in c["rows"]) and text_dict(c["dict"])
-                    and valid_reads(c) and all(isinstance(p, str) for p in c.get("probes", [])))
+                    and valid_reads(c) and all(isinstance(p, str) for p in c.get("probes", [])) and valid_mapping(c)
+                    and c.get("derived") in (None, "head", "slice", "select", "query"))
         if k == "ctx":
             return c["what"] in CTX_KINDS and all(isinstance(f, str) for f in c["fields"])
         if k == "sized":
@@ -1932,7 +2089,7 @@ def _drop_key_variants(x):
                     y["dicts"] = [dict(v), dict(v)]
                     yield y
         if structural:
-            for k in ("mapping", "iterator", "source", "reads", "shared", "from_row", "lazy", "append", "unread"):
+            for k in ("mapping", "dmapping", "derived", "iterator", "source", "reads", "shared", "from_row", "lazy", "append", "unread"):
                 if x.get(k) or (k == "append" and x.get(k) is not None):
                     y = dict(x)
                     del y[k]
@@ -2112,6 +2269,9 @@ def classify(ctx, c):
             ctx.hit("row-after-other-feature-same-fields")
     elif k == "frame":
         ctx.hit("frame-source:%s(%s)" % (source_kind(c), SOURCE_CLASS[source_kind(c)]))
+        ctx.hit("frame-records-held-as:" + (c.get("dmapping") or "dict"))
+        if c.get("append") is not None:
+            ctx.hit("append-record:%s->dicts" % (c.get("mapping") or "dict"))
         if c["dicts"] and len(c["dicts"][0]) > 16:
             ctx.hit("frame-wide:%d" % len(c["dicts"][0]))
         if c.get("shared") and any(list(a.items()) == list(b.items()) for a, b in zip(c["dicts"], c["dicts"][1:])):
@@ -2123,6 +2283,10 @@ def classify(ctx, c):
         SEEN_CTX.setdefault(tuple(c["fields"]), set()).add(c["what"])
     elif k == "append":
         ctx.hit("append-via:" + (c.get("via") or ("schema" if c["schema_bound"] else "names")) + (":lazy" if c.get("lazy") else ""))
+        ctx.hit("append-record:%s->%s%s" % (c.get("mapping") or "dict", c.get("via") or ("schema" if c["schema_bound"] else "names"),
+                                            ":derived" if c.get("derived") else ""))
+        if c.get("derived"):
+            ctx.hit("append-to-derived:" + c["derived"])
     elif k == "bound":
         ver, read_at, made_at, schema_of = [], [], [], []
         for op in c["ops"]:
@@ -2334,9 +2498,13 @@ def gen_fields(rng):
     return rng.sample(NAMES, min(n, len(NAMES)))
 
 
-def gen_mapping(rng):
+def gen_mapping(rng, mutable_only=False):
+    """The kind of object the record is held in: 65 % a plain dict, otherwise any of the other kinds."""
     r = rng.random()
-    return None if r < 0.8 else "ordered" if r < 0.9 else "default"
+    if r < 0.65:
+        return None
+    kinds = [m for m in MAPPINGS[1:] if not mutable_only or m in MAPPING_IS_MUTABLE]
+    return rng.choice(kinds)
 
 
 def gen_reads(rng):
@@ -2391,8 +2559,11 @@ def gen_frame_case(rng):
         dicts[j] = dict(dicts[j - 1])  # the same record twice in a row
     c = {"kind": "frame", "dicts": dicts}
     gen_source(rng, c)
-    if rng.random() < 0.3:
+    if rng.random() < 0.3 and c.get("source") not in SOURCE_REUSES_RECORDS:
         c["shared"] = True
+    dm = gen_mapping(rng)
+    if dm and c.get("source") != "refill":
+        c["dmapping"] = dm
     if dicts and rng.random() < 0.5:
         c["append"] = gen_dict(rng, first_keys)
         m = gen_mapping(rng)
@@ -2423,7 +2594,13 @@ def gen_append_case(rng):
         d = {k: rng.randint(-9, 9) for k in keys}
         if rng.random() < 0.35:
             d = spoil(d, lambda: rng.randint(-9, 9))
-        return {"kind": "append", "fields": fields, "rows": rows, "dict": d, "schema_bound": True, "via": "arrow"}
+        c = {"kind": "append", "fields": fields, "rows": rows, "dict": d, "schema_bound": True, "via": "arrow"}
+        m = gen_mapping(rng)
+        if m and rng.random() < 0.6:
+            c["mapping"] = m
+        if rng.random() < 0.3:
+            c["derived"] = rng.choice(["head", "slice", "select", "query"])
+        return c
     rows = [[gen_pyval(rng, 1) for _ in fields] for _ in range(rng.randint(0, 3))]
     bound = r < 0.6
     if bound:
@@ -2440,6 +2617,8 @@ def gen_append_case(rng):
     m = gen_mapping(rng)
     if m and (not bound or rng.random() < 0.5):
         c["mapping"] = m
+    if rng.random() < 0.3:
+        c["derived"] = rng.choice(["head", "slice", "select", "query"] if len(set(fields)) == len(fields) else ["head", "slice", "query"])
     rd = gen_reads(rng)
     if rd:
         c["reads"] = rd
@@ -2483,7 +2662,11 @@ def gen_session_case(rng):
             dicts = [{f: gen_pyval(rng, 1) for f in fk}] + [gen_dict(rng, fk) for _ in range(max(k - 1, 0))] if k else []
             if len(dicts) > 1 and rng.random() < 0.3:
                 dicts[1] = dict(dicts[0])
-            ops.append(gen_source(rng, {"op": "frame", "dicts": dicts}))
+            fop = gen_source(rng, {"op": "frame", "dicts": dicts})
+            dm = gen_mapping(rng)
+            if dm and fop.get("source") != "refill":
+                fop["dmapping"] = dm
+            ops.append(fop)
             if rng.random() < 0.4:
                 ops[-1]["shared"] = True
         elif r < 0.45:
@@ -2607,7 +2790,7 @@ def gen_bound_case(rng):
             gone = [x for x in former[fs] if x not in cur]
             op = {"op": "append", "frame": fi, "dict": d, "probes": list(cur[:2]) + gone[:1] + ["absent"],
                   "default": rng.choice([None, 0, "dflt"])}
-            m = gen_mapping(rng)
+            m = gen_mapping(rng, mutable_only=True)  # a schema's validation refuses read-only mappings (TypeError)
             if m and rng.random() < 0.5:
                 op["mapping"] = m
             rd = gen_reads(rng)
@@ -2738,6 +2921,37 @@ def exhaustive_sources():
                                               {"op": "reread", "frame": 0}]}
 
 
+def exhaustive_mappings():
+    """Every kind of object a record may be held in x every kind of frame it can meet: a free-standing row class, the
+    constructor (first and later records), append to a frame built from dictionaries, to a names-only frame (also lazily
+    backed), to a schema-bound and an Arrow-derived frame, to frames derived from those by head / slice / select / query,
+    and as operations of a session (frame of such records, append, row).  The record has its keys in another order than the
+    fields, one key that is not a field and (when the frame allows it) one field missing."""
+    rec = {"b": 2, "zz": 9, "a": 1}
+    full = {"c": 3, "b": 2, "a": 1}
+    for m in MAPPINGS:
+        mk = {} if m == "dict" else {"mapping": m}
+        dmk = {} if m == "dict" else {"dmapping": m}
+        yield dict({"kind": "row", "fields": ["a", "b", "c"], "dict": rec, "probes": ["a", "c", "zz", "absent"], "default": "dflt"}, **mk)
+        yield dict({"kind": "row", "fields": [], "dict": rec, "probes": ["a"], "default": None}, **mk)
+        for src in ("list", "gen", "reader", "edit"):
+            yield dict({"kind": "frame", "dicts": [{"a": 0, "b": "x", "c": None}, rec, {}], "source": src, "append": rec}, **mk, **dmk)
+        for derived in (None, "head", "slice", "select", "query"):
+            dv = {"derived": derived} if derived else {}
+            yield dict({"kind": "append", "fields": ["a", "b", "c"], "rows": [[0, 0, 0]], "dict": rec, "schema_bound": False}, **mk, **dv)
+            yield dict({"kind": "append", "fields": ["a", "b", "c"], "rows": [[0, 0, 0]], "dict": full, "schema_bound": True}, **mk, **dv)
+            yield dict({"kind": "append", "fields": ["a", "b", "c"], "rows": [[0, 0, 0]], "dict": full, "schema_bound": True, "via": "arrow"},
+                       **mk, **dv)
+        yield dict({"kind": "append", "fields": ["a", "b", "c"], "rows": [[0, 0, 0]], "dict": rec, "schema_bound": False, "lazy": True}, **mk)
+        yield {"kind": "session", "ops": [
+            dict({"op": "frame", "dicts": [{"a": 0, "b": "x"}, rec]}, **dmk),
+            dict({"op": "append", "frame": 0, "dict": rec, "probes": ["a", "b", "zz"], "default": None}, **mk),
+            {"op": "derive", "frame": 0, "how": "slice", "n": 2},
+            dict({"op": "append", "frame": 1, "dict": rec, "probes": ["a", "b", "zz"], "default": None}, **mk),
+            dict({"op": "row", "fields": ["b", "a"], "dict": rec, "probes": ["a", "zz"], "default": 0}, **mk),
+            {"op": "reread", "frame": 0}, {"op": "reread", "frame": 1}]}
+
+
 def gen_any(rng):
     r = rng.random()
     if r < 0.38:
@@ -2780,6 +2994,12 @@ def run(ctx):
         evaluate(ctx, srcs)
         ctx.note("exhaustive_sources", "%d frames / sessions: each of %d ways of holding the sequence of dictionaries given to the "
                  "constructor (%s) x 1..4 dictionaries" % (len(srcs), len(SOURCES), ", ".join(SOURCES)))
+        mps = list(exhaustive_mappings())
+        evaluate(ctx, mps)
+        ctx.note("exhaustive_mappings", "%d cases: each of %d kinds of object a record may be held in (%s) x a free-standing row "
+                 "class, the constructor (list / generator / record reader / producer that edits what it handed over), append to a "
+                 "frame of dictionaries, a names-only frame (also lazily backed), a schema-bound and an Arrow-derived frame, each of "
+                 "those also derived by head / slice / select / query, and a session" % (len(mps), len(MAPPINGS), ", ".join(MAPPINGS)))
         szd = list(exhaustive_sized(ctx.scale(True, False)))
         evaluate(ctx, szd)
         ctx.note("exhaustive_sized", "%d appends of a record whose packed values are at / one below / one past every size threshold "
